@@ -744,11 +744,23 @@ func independentV2(set []types.V2Transaction, c types.V2Transaction) bool {
 func runC14(r *mon.Run, replay string) {
 	r.Rule("chains stopped at heights where v1 and v2 transactions may both be pooled (mix regime between allow and require), then PRNG sequences of pool submissions built by the pure generator on top of the current pool: fresh, partly known, all known, valid-against-tip-but-conflicting-with-pool at position k, invalid at position k; after every call the pool listing is compared with the all-or-nothing expectation, the known flag with 'every id was pooled', caller memory with its byte image, the pool with itself after scribbling over submitted/returned values, and both lookup functions are called with every v1 id, v2 id and a random id; distinct = (stream, step, kind, pool composition)")
 	if st, ok := replayStream(replay); ok {
-		runC14History(r, st)
+		switch {
+		case st >= 149000:
+			runC14Reorg(r, st)
+		case st >= 148000:
+			runC14NearLimit(r, st)
+		default:
+			runC14History(r, st)
+		}
 		return
 	}
 	n := r.Pick(250, 4000)
 	parallel(n, func(i int) { runC14History(r, uint64(14000+i)) })
+	parallel(r.Pick(16, 200), func(i int) { runC14NearLimit(r, uint64(148000+i)) })
+	parallel(r.Pick(120, 900), func(i int) { runC14Reorg(r, uint64(149000+i)) })
+	r.Floor("rejected_sets_crossing_the_pool_limit", 10)
+	r.Floor("family_resubmissions_with_members_dropped_by_the_reorg", 30)
+	r.Floor("family_resubmissions_partly_known", 10)
 	r.Floor("steps_with_both_kinds_pooled", 50)
 	r.Floor("submissions_rejected", 50)
 	r.Floor("partly_known_sets_ending_with_known", 20)
